@@ -146,17 +146,31 @@ class Rec:
         return f"<{self.cls.name} {self.f}>"
 
     def snapshot(self):
-        r = Rec(self.cls, {k: (v.snapshot() if hasattr(v, "snapshot") else v) for k, v in self.f.items()})
+        r = Rec(self.cls, {k: snap(v) for k, v in self.f.items()})
         r.origin = self.origin
         return r
+
+
+def snap(v):
+    """pre-state copy of a value: mutable containers are copied (python dicts / tuples of them included), terms are shared"""
+    if hasattr(v, "snapshot"):
+        return v.snapshot()
+    if isinstance(v, dict):
+        return {k: snap(x) for k, x in v.items()}
+    if isinstance(v, tuple):
+        return tuple(snap(x) for x in v)
+    return v
 
 
 class PyList:
     def __init__(self, items):
         self.items = list(items)
+        self.origin = self
 
     def snapshot(self):
-        return PyList([v.snapshot() if hasattr(v, "snapshot") else v for v in self.items])
+        r = type(self)([snap(v) for v in self.items])
+        r.origin = self.origin
+        return r
 
     def __repr__(self):
         return f"PyList({self.items})"
@@ -221,6 +235,18 @@ class Opaque:
 
     def __repr__(self):
         return f"<opaque {self.what}>"
+
+
+class Model:
+    """a contract-defined value with behaviour (uninterpreted callables, functools.partial objects, ...): the interpreter calls
+    `vf_call(interp, args, kwargs)`, compares with `vf_eq(other)` (default: identity, as for python functions) and treats it as
+    truthy; plain python attributes may be read and written"""
+
+    def vf_call(self, interp, args, kwargs):
+        raise Unsupp(f"{self!r} is not callable")
+
+    def vf_eq(self, other):
+        return self is other
 
 
 class ExcValue:
@@ -729,6 +755,8 @@ def concretize(world, v, model):
     """symbolic value + model -> plain python data (ints, bools, lists, dict for records)"""
     if isinstance(v, (int, bool, str, float)) or v is None:
         return v
+    if hasattr(v, "concretize_with"):
+        return v.concretize_with(world, model)       # contract-defined structured value (additive): own model extraction
     if isinstance(v, FuncRef):
         return {"__classref__": v.name}
     if isinstance(v, UFunc):
